@@ -81,10 +81,30 @@ def rt_configs(ck: Check, be: bool) -> List[Dict[str, Any]]:
 SAN_FLAGS = ["-O1", "-g", "-fsanitize=address,undefined", "-fno-sanitize=alignment", "-fno-sanitize-recover=all"]
 
 
+SAN_LOG = os.path.join(vlib.BUILD, "san_logs")
+
+
 def san_env() -> Dict[str, str]:
     rc, out, _ = vlib.run(["gcc", "-print-file-name=libasan.so"])
-    return {"LD_PRELOAD": out.strip(), "ASAN_OPTIONS": "detect_leaks=0:abort_on_error=1:halt_on_error=1",
-            "UBSAN_OPTIONS": "halt_on_error=1:print_stacktrace=1"}
+    os.makedirs(SAN_LOG, exist_ok=True)
+    for f in os.listdir(SAN_LOG):
+        os.remove(os.path.join(SAN_LOG, f))
+    lp = os.path.join(SAN_LOG, "san")
+    return {"LD_PRELOAD": out.strip(),
+            "ASAN_OPTIONS": f"detect_leaks=0:abort_on_error=1:halt_on_error=1:log_path={lp}",
+            "UBSAN_OPTIONS": f"halt_on_error=1:print_stacktrace=0:log_path={lp}"}
+
+
+def san_headline() -> str:
+    """first lines of the most recent sanitizer report (the worker's stderr tail only shows the stack)"""
+    try:
+        fs = sorted((os.path.join(SAN_LOG, f) for f in os.listdir(SAN_LOG)), key=os.path.getmtime)
+        if not fs:
+            return ""
+        lines = [ln.strip() for ln in open(fs[-1], errors="replace").read().split("\n") if ln.strip()]
+        return " | sanitizer: " + " ".join(lines[:3])[:400]
+    except OSError:
+        return ""
 
 
 def build_rt(ck: Check, cfg: Dict[str, Any]) -> str:
@@ -285,7 +305,7 @@ def run_rt(ck: Check, be: bool, cases: List[Dict[str, Any]], tag: str,
             n_obs += 1
             if "worker_error" in r or "error" in r:
                 ck.violation(f"the C runtime crashed or could not be run ({name}, {c['op']}): "
-                             f"{r.get('worker_error') or r.get('error')}",
+                             f"{(r.get('worker_error') or r.get('error'))[-300:]}{san_headline() if env else ''}",
                              {"case": c, "config": name, "obligation": "tie T2 (direct runtime call)"}, found_input=True)
                 continue
             key = json.dumps([ci, r], sort_keys=True)
@@ -507,7 +527,8 @@ def run_schemas(ck: Check, be: bool, items: List[Dict[str, Any]], tag: str, all_
         s = it["schema"]
         if "runs" not in r:
             stats["impl_failures"] += 1
-            err = r.get("compile_error") or r.get("probe_error") or r.get("worker_error") or "?"
+            err = (r.get("compile_error") or r.get("probe_error") or r.get("worker_error") or "?")[-400:]
+            err += san_headline() if env else ""
             ck.violation(f"valid schema could not be compiled/probed/run as C: {err}",
                          {"schema": sg.schema_to_json(s), "error": err, "origin": it["origin"],
                           "obligation": "tie T2 (generated C could not be run)"}, found_input=True)
@@ -705,7 +726,7 @@ RULE = ("direct calls: (n, di, si) sweep of BpCopyBufferBits on exact-size guard
 def run_c03(ck: Check) -> None:
     prove_and_model(ck, "C03.v")
     parts: Dict[str, Dict[str, Any]] = {}
-    items = load_corpus("C03") + gen_schema_cases(ck, ck.n(100, 1500), ck.n(4, 6), 2)
+    items = load_corpus("C03") + gen_schema_cases(ck, ck.n(100, 800), ck.n(4, 6), 2)
     parts["runtime_LE"] = rt_stream(ck, False, ("copy", "base", "int", "array"), "le")
     parts["schemas_LE"] = run_schemas(ck, False, items, "g", all_langs=False)
     if not ck.quick:
@@ -739,7 +760,7 @@ def gen_base_rev_cases(ck: Check, rng: random.Random) -> List[Dict[str, Any]]:
 def run_c06(ck: Check) -> None:
     prove_and_model(ck, "C06.v")
     parts: Dict[str, Dict[str, Any]] = {}
-    items = load_corpus("C06") + gen_schema_cases(ck, ck.n(80, 1200), ck.n(3, 5), 2)
+    items = load_corpus("C06") + gen_schema_cases(ck, ck.n(80, 600), ck.n(3, 5), 2)
     parts["runtime_BE_build_on_LE_host"] = rt_stream(ck, True, ("copy", "base", "int", "array"), "be")
     rng = random.Random(f"{ck.prop}:{ck.seed}:rev")
     parts["base_type_BE_build_BE_storage"] = run_rt(ck, True, gen_base_rev_cases(ck, rng), "rev")
@@ -757,7 +778,7 @@ def run_c07_c_half(ck: Check) -> Dict[str, Dict[str, Any]]:
     and the size constants of the three emitters"""
     prove_and_model(ck, "C07.v")
     parts: Dict[str, Dict[str, Any]] = {}
-    items = load_corpus("C07") + gen_schema_cases(ck, ck.n(80, 1200), 1, ck.n(4, 8))
+    items = load_corpus("C07") + gen_schema_cases(ck, ck.n(80, 600), 1, ck.n(4, 8))
     parts["c_runtime_bounds"] = rt_stream(ck, False, ("copy", "base", "array"), "le")
     parts["c_schemas_overdriven_storage_and_size_constants"] = run_schemas(ck, False, items, "g", all_langs=True)
     if not ck.quick:
